@@ -758,6 +758,9 @@ def search(ctx, budget_s):
         if ctx.violations:
             return
     ctx.notes.append("search: %d further SumTrees cases (%d multiprocessing runs) through the oracle, no unlisted violation" % (m, runs))
+    # several sources with a per-source burn-in (read_from_files / read_from_path / SumTrees serial mode)
+    from dv import c06_readfiles
+    c06_readfiles.search(ctx, budget_s * 0.5, rng=rng)
 
 
 def slim(obs):
@@ -823,6 +826,8 @@ def run(tier, seed, replay=None):
                     label="direct", sample_fn=sample_fn)
     from dv import c06_sumtrees
     c06_sumtrees.stage(ctx, tier)
+    from dv import c06_readfiles
+    c06_readfiles.stage(ctx, tier)
     for k, v in sorted(ERR_STATS.items()):
         ctx.count(k, v)
     return ctx.finish(level="proof", rule=(
@@ -833,4 +838,9 @@ def run(tier, seed, replay=None):
         "settings and rootings for the error branches); non-trivial = at least one successful merge of a non-empty array and an array "
         "with >= 2 trees at the end; distinct by full case content. thorough adds the exhaustive scope: a 3-tree sample, every "
         "assignment to 3 parts x every arrival order x update/extend/+ x rooted/unrooted/undefined (1458 histories). sumtrees: real TreeProcessor runs on 1-4 files, num_processes "
-        "1..files+2, explicit and implicit rooting, schedule observed"))
+        "1..files+2, explicit and implicit rooting, schedule observed. readfiles: 1-5 NEXUS / Newick sources of 0-5 trees (tree-less "
+        "NEXUS sources - TAXA block only, empty TREES block, bare #NEXUS - in every position; sources with two TREES blocks; sources "
+        "shorter than the burn-in), tree_offset 0-3, read through read_from_files (paths / file objects), one call per source "
+        "(read_from_path / read / read_from_stream / read_from_string), one array per source merged in random arrival orders "
+        "(update / extend / +=), SumTrees serial mode (quiet and logging loop) and the naive per-source definition; non-trivial = "
+        ">= 2 sources and >= 1 tree kept; thorough adds 3 sources x {trees, 3 tree-less forms}^3 x tree_offset 0..3"))
